@@ -169,6 +169,10 @@ fn post_init<T: Transport>(d: &mut AnyDriver<T>, accepted: u64, v: &mut Vec<(Str
             if b.readonly() != (accepted & (1 << 5) != 0) {
                 push(v, "blk-readonly", format!("readonly() = {} with accepted features {:#x}", b.readonly(), accepted));
             }
+            // The interrupt switch after completions have been consumed (the queue's position is
+            // no longer 0): without EVENT_IDX it may only touch the flags word.
+            b.disable_interrupts();
+            b.enable_interrupts();
         }
         AnyDriver::Console(c) => {
             let s = c.size();
@@ -222,16 +226,22 @@ fn post_init<T: Transport>(d: &mut AnyDriver<T>, accepted: u64, v: &mut Vec<(Str
             if hl != Ok(want) {
                 push(v, "net-header-size", format!("fill_buffer_header = {:?}, expected {} (VERSION_1 negotiated = {})", hl, want, accepted & F_VERSION_1 != 0));
             }
+            n.disable_interrupts();
+            n.enable_interrupts();
         }
         AnyDriver::NetBuf(n) => {
             let mut tx = n.new_tx_buffer(4);
             tx.packet_mut().copy_from_slice(&[1, 2, 3, 4]);
             let _ = n.send(tx);
             let _ = n.send(n.new_tx_buffer(0));
+            n.disable_interrupts();
+            n.enable_interrupts();
         }
         AnyDriver::Rng(r) => {
             let mut b = [0u8; 8];
             let _ = r.request_entropy(&mut b);
+            r.disable_interrupts();
+            r.enable_interrupts();
         }
         AnyDriver::Rtc(r) => {
             let _ = r.num_clocks();
@@ -260,6 +270,8 @@ fn post_init<T: Transport>(d: &mut AnyDriver<T>, accepted: u64, v: &mut Vec<(Str
             let _ = s.pcm_xfer(0, &[1, 2, 3, 4, 5, 6, 7, 8, 9]);
             let _ = s.latest_notification();
             let _ = s.pcm_stop(0);
+            s.enable_interrupts(false);
+            s.enable_interrupts(true);
         }
         AnyDriver::P9(p) => {
             let mut resp = [0u8; 16];
